@@ -1092,4 +1092,27 @@ def mixedDecl : Decl :=
     clusters := [{ id := 3, tcp := false, fronts := [{ addr := 1, key := 4 }, { addr := 2, key := 5, cert := 9 }],
                    backends := [{ addr := 5 }] }] }
 
+
+/-- one machine declared once per address family: two backends of one cluster
+    share the `backend_id` 7 (identity is (backend_id, address)) -/
+def sharedBackendIdCfg : Cfg :=
+  { http := [{ proto := .http, addr := 1 }],
+    clusters := [{ id := 3, tcp := false, fronts := [{ addr := 1, key := 4 }],
+                   backends := [{ addr := 40, id := 7 }, { addr := 60, id := 7 }, { addr := 41 }] }] }
+
+
+/-- load the file `n` times over a state -/
+def reloadN (c : Cfg) : Nat → St → St
+  | 0, s => s
+  | n + 1, s => reloadN c n (runMsgs s (contents c))
+
+theorem c20_reload_any_number_of_times (c : Cfg) (n : Nat) : ∀ s : St,
+    reloadN c (n + 1) s = runMsgs s (contents c) := by
+  induction n with
+  | zero => intro s; rfl
+  | succ n ih =>
+    intro s
+    show reloadN c (n + 1) (runMsgs s (contents c)) = runMsgs s (contents c)
+    rw [ih, c20_reload_idempotent]
+
 end Sozu.Config
